@@ -262,6 +262,14 @@ func (t *Transport) getConn(addr string) (pc *persistConn, err error) {
 	if cq, ok := t.idleConns[addr]; ok && cq.Length() > 0 {
 		pc = cq.Dequeue()
 		pc.lastTime = time.Now()
+		pc.mu.Lock()
+		alive := pc.alive
+		pc.mu.Unlock()
+		if !alive {
+			if pc, err = t.newPersistConn(addr); err != nil {
+				return nil, err
+			}
+		}
 	} else {
 		if pc, err = t.newPersistConn(addr); err != nil {
 			return nil, err
